@@ -52,6 +52,10 @@ func segText(class string, variant int) string {
 		return "..."
 	case "pdd":
 		return []string{" ..", ".. ", "\t..", " .. "}[variant%4]
+	case "deep":
+		return strings.Repeat("s/", 63) + "s" // 64 harmless components
+	case "dd66":
+		return strings.Repeat("../", 65) + ".." // 66 times ".."
 	case "long":
 		return strings.Repeat("p/", 520) + "q" // 1041 bytes of short nested names
 	}
@@ -197,6 +201,16 @@ func PathsJail(args []string) {
 			before := snapshotAround(caseDir, out)
 			val := pathText(r, v)
 			m, fileItem := hostileManifest(r.Field, val)
+			if r.Field == "id" && n%2 == 1 {
+				// the listed file is empty: no chunk will ever be stored for it, the id is used all the same
+				fileItem.Size = 0
+				for i := range m.Items {
+					if !m.Items[i].IsDir {
+						m.Items[i].Size = 0
+					}
+				}
+				m.TotalBytes = 0
+			}
 			beginPath := fileItem.RelPath
 			if r.Field == "begin" {
 				// benign manifest; the FileBegin record carries the listed file's key and size and this path
@@ -321,7 +335,9 @@ func runHostile(m manifest.Manifest, file manifest.FileItem, beginPath string, b
 	if resume {
 		cs.Write(encode(transfer.ResumeRequest{FileID: file.ID, StreamID: key}))
 	}
-	ds.Write(chunkFrame(key, 0, []byte("8 bytes!"), true, -1))
+	if file.Size > 0 {
+		ds.Write(chunkFrame(key, 0, []byte("8 bytes!"), true, -1))
+	}
 	cs.Write(encode(transfer.FileEnd{StreamID: key}))
 	// like a real sender: End once the file was acknowledged (or the receiver gave up / nothing came)
 	acked := make(chan struct{}, 1)
